@@ -61,6 +61,8 @@ structure REntry where
   post : Post
   /-- enclosing conditions of the read (`+c` then-branch, `-c` else-branch, `case L`). -/
   ctx : List String
+  /-- declared type of the C++ member that receives the value (`float` members narrow it). -/
+  fty : String
   deriving Repr, Inhabited
 
 def Pre.isOpaque : Pre → Bool
@@ -256,5 +258,9 @@ def decR {F : Type} (o : Ops F) (u : UnitSys F) : Post → F → Option F
   | .sentinelToSI m, y => some (if o.isSentinel y then y else toSI o u m y)
   | .sentinelId, y => some y
   | _, _ => none
+
+/-- The value the C++ member holds: `float` members narrow the decoded double. -/
+def decField {F : Type} (o : Ops F) (u : UnitSys F) (fty : String) (post : Post) (y : F) : Option F :=
+  (decR o u post y).map fun v => if fty = "float" then o.narrow v else v
 
 end OpmVerif.RstSlot
